@@ -86,6 +86,27 @@ SplitRe(r, str) ==
       PieceEnd(j)   == IF j = nm + 1 THEN Len(str) ELSE ms[j][1] - 1
   IN [j \in 1..(nm + 1) |-> SubSeq(str, PieceStart(j), PieceEnd(j))]
 
+\* ---- sub / gsub on a text ----
+\* replacement text for one match: & is the matched text, \& a literal ampersand, \\ a backslash
+RECURSIVE ExpandRepl(_, _)
+ExpandRepl(rp, matched) ==
+  IF rp = <<>> THEN <<>>
+  ELSE IF rp[1] = AMP THEN matched \o ExpandRepl(Tail(rp), matched)
+  ELSE IF rp[1] = BSL /\ Len(rp) >= 2 /\ rp[2] \in {AMP, BSL} THEN <<rp[2]>> \o ExpandRepl(SubSeq(rp, 3, Len(rp)), matched)
+  ELSE <<rp[1]>> \o ExpandRepl(Tail(rp), matched)
+
+\* <<new string, number of replacements>>: all (gsub) or the first (sub) of the non-overlapping
+\* leftmost-longest matches
+Substitute(re, rp, str, global) ==
+  LET all == FindAll(re, str)
+      ms == IF global \/ all = <<>> THEN all ELSE <<all[1]>>
+      nm == Len(ms)
+      Gap(j) == SubSeq(str, IF j = 1 THEN 1 ELSE ms[j - 1][2], IF j = nm + 1 THEN Len(str) ELSE ms[j][1] - 1)
+      RECURSIVE Build(_)
+      Build(j) == IF j > nm THEN Gap(nm + 1)
+                  ELSE Gap(j) \o ExpandRepl(rp, SubSeq(str, ms[j][1], ms[j][2] - 1)) \o Build(j + 1)
+  IN <<Build(1), nm>>
+
 \* ---- rendering to AWK / RE2 source text (fully parenthesised) ----
 IsMeta(ch) == ch \in {BSL, DOT, PLUS, STAR, QM, LPAR, RPAR, BAR, LBRK, RBRK, LBRC, RBRC, CARET, DOLLAR, SLASH}
 RECURSIVE Render(_), SetToSeq(_)
